@@ -155,6 +155,172 @@ pub open spec fn found_is(len: Option<usize>, pos: usize, body: Seq<u8>, t: int)
         r is Ok ==> r->Ok_0@ == input_text(buffer@, attr_type as int)->Some_0,
 //@end
 
+
+// ---------------------------------------------------------------- context.rs: the message decoder
+//@include inc/admission.rs
+impl vstd::std_specs::convert::FromSpecImpl<&[u8; TRANSACTION_ID_SIZE]> for TransactionId {
+    open spec fn obeys_from_spec() -> bool { true }
+    open spec fn from_spec(v: &[u8; TRANSACTION_ID_SIZE]) -> Self { TransactionId(*v) }
+}
+impl From<&[u8; TRANSACTION_ID_SIZE]> for TransactionId {
+//@item stun_rs :: mod types > impl From<&[u8; TRANSACTION_ID_SIZE]> for TransactionId > fn from
+//@spec
+    ensures r.0@ == buff@,
+//@end
+}
+//@item! stun_rs :: mod attributes > struct AttributeType
+impl Clone for AttributeType { fn clone(&self) -> (r: Self) ensures r == *self { *self } }
+impl Copy for AttributeType {}
+impl vstd::std_specs::convert::FromSpecImpl<u16> for AttributeType {
+    open spec fn obeys_from_spec() -> bool { true }
+    open spec fn from_spec(v: u16) -> Self { AttributeType(v) }
+}
+impl From<u16> for AttributeType {
+    #[verifier::external_body]
+    fn from(val: u16) -> (r: Self) { unimplemented!() }
+}
+impl vstd::std_specs::cmp::PartialEqSpecImpl for AttributeType {
+    open spec fn obeys_eq_spec() -> bool { true }
+    open spec fn eq_spec(&self, other: &AttributeType) -> bool { self.0 == other.0 }
+}
+impl PartialEq for AttributeType {
+    #[verifier::external_body]
+    fn eq(&self, other: &AttributeType) -> (r: bool) { unimplemented!() }
+}
+impl AttributeType {
+//@item stun_rs :: mod attributes > impl AttributeType > fn as_u16
+//@spec
+    ensures r == self.0,
+//@end
+}
+//@include prelude/err_levels.rs
+#[verifier::external_body]
+pub struct HMACKey { _p: () }
+impl Clone for HMACKey { #[verifier::external_body] fn clone(&self) -> (r: Self) ensures r == *self { unimplemented!() } }
+//@item! stun_rs :: mod context > struct DecoderContext
+impl Clone for DecoderContext {
+//@item stun_rs :: mod context > impl ::core::clone::Clone for DecoderContext > fn clone
+//@spec
+    ensures r == *self,
+//@end
+}
+impl DecoderContext {
+//@item stun_rs :: mod context > impl DecoderContext > fn validate
+//@spec
+    ensures r == self.validation,
+//@end
+//@item stun_rs :: mod context > impl DecoderContext > fn with_unknown_data
+//@spec
+    ensures r == self.unknown_data,
+//@end
+}
+//@item! stun_rs :: mod context > struct AttributeDecoderContext
+impl<'a> AttributeDecoderContext<'a> {
+//@item stun_rs :: mod context > impl<'a> AttributeDecoderContext<'a> > fn new
+//@spec
+    ensures r.ctx == ctx, r.decoded_msg == decoded_msg, r.raw_value == raw_value,
+//@end
+}
+// ---- the attribute, abstract in this unit (per-kind decoders: unit attrs)
+#[verifier::external_body]
+pub struct StunAttribute { _p: () }
+pub uninterp spec fn registered(t: u16) -> bool;
+// what the registered decoder of type t makes of a value, given the message bytes before it (XOR attributes read the
+// transaction id from there); None if it rejects the value
+pub uninterp spec fn dec_attr(t: u16, value: Seq<u8>, prefix: Seq<u8>) -> Option<StunAttribute>;
+pub uninterp spec fn unknown_attr(t: u16, data: Option<Seq<u8>>) -> StunAttribute;
+pub uninterp spec fn attr_verifies(a: StunAttribute, input: Seq<u8>, ctx: DecoderContext) -> bool;
+impl StunAttribute {
+    pub uninterp spec fn spec_type(&self) -> u16;
+    pub uninterp spec fn verifiable(&self) -> bool;
+    #[verifier::external_body]
+    pub fn attribute_type(&self) -> (r: AttributeType) ensures r.0 == self.spec_type() { unimplemented!() }
+    #[verifier::external_body]
+    pub fn as_verifiable_ref(&self) -> (r: Option<VerifiableRef<'_>>)
+        ensures r is Some <==> self.verifiable(), r is Some ==> *r->Some_0.a == *self,
+    { unimplemented!() }
+}
+// `&dyn Verifiable` (trait objects are outside the verifier's dialect): a reference to the attribute itself
+pub struct VerifiableRef<'a> { pub a: &'a StunAttribute }
+impl<'a> VerifiableRef<'a> {
+    #[verifier::external_body]
+    pub fn verify(&self, input: &[u8], ctx: &DecoderContext) -> (r: bool)
+        ensures r == attr_verifies(*self.a, input@, *ctx),
+    { unimplemented!() }
+}
+// (R12) `type DecoderHandler = fn(AttributeDecoderContext) -> Result<(StunAttribute, usize), StunError>`: function-pointer
+// types are outside the dialect; the registry entry is an opaque value with a `call` method
+#[verifier::external_body]
+pub struct DecoderHandler { _p: () }
+impl DecoderHandler {
+    pub uninterp spec fn ty(&self) -> u16;
+    #[verifier::external_body]
+    pub fn call(&self, ctx: AttributeDecoderContext) -> (r: Result<(StunAttribute, usize), StunError>)
+        ensures r is Ok <==> dec_attr(self.ty(), ctx.raw_value@, ctx.decoded_msg@) is Some,
+            r is Ok ==> r->Ok_0.0 == dec_attr(self.ty(), ctx.raw_value@, ctx.decoded_msg@)->Some_0,
+    { unimplemented!() }
+}
+#[verifier::external_body]
+pub fn get_handler(t: AttributeType) -> (r: Option<&'static DecoderHandler>)
+    ensures r is Some <==> registered(t.0), r is Some ==> r->Some_0.ty() == t.0,
+{ unimplemented!() }
+#[verifier::external_body]
+pub struct Unknown { _p: () }
+impl Unknown {
+    pub uninterp spec fn uty(&self) -> u16;
+    pub uninterp spec fn udata(&self) -> Option<Seq<u8>>;
+    #[verifier::external_body]
+    pub fn new(attr_type: AttributeType, data: Option<&[u8]>) -> (r: Unknown)
+        ensures r.uty() == attr_type.0, r.udata() == (match data { Some(d) => Some(d@), None => None::<Seq<u8>> }),
+    { unimplemented!() }
+}
+impl vstd::std_specs::convert::FromSpecImpl<Unknown> for StunAttribute {
+    open spec fn obeys_from_spec() -> bool { true }
+    open spec fn from_spec(v: Unknown) -> Self { unknown_attr(v.uty(), v.udata()) }
+}
+impl From<Unknown> for StunAttribute {
+    #[verifier::external_body]
+    fn from(v: Unknown) -> (r: Self) { unimplemented!() }
+}
+
+//@item stun_rs :: mod context > fn validate_attribute
+//@tags C09 C18 C04 C10
+//@sub "&input" => "input.as_slice()"
+//@closure 1
+|| -> (e: StunError)
+    ensures true,
+//@spec
+    ensures r is Ok <==> !needs_validation(*ctx, *attr) || attr_valid(*attr, buffer@, ctx->Some_0),
+//@end
+pub open spec fn needs_validation(ctx: Option<DecoderContext>, a: StunAttribute) -> bool {
+    ctx is Some && ctx->Some_0.validation && a.verifiable()
+}
+pub open spec fn attr_valid(a: StunAttribute, b: Seq<u8>, ctx: DecoderContext) -> bool {
+    input_text(b, a.spec_type() as int) is Some && attr_verifies(a, input_text(b, a.spec_type() as int)->Some_0, ctx)
+}
+//@item! stun_rs :: mod context > struct AttributeFilter
+impl Default for AttributeFilter {
+//@item stun_rs :: mod context > impl ::core::default::Default for AttributeFilter > fn default
+//@sub "::core::default::Default::default()" => "false" all
+//@spec
+    ensures !r.message_integrity && !r.message_integrity_sha256 && !r.fingerprint,
+//@end
+}
+pub struct MessageIntegrity;
+pub struct MessageIntegritySha256;
+pub struct Fingerprint;
+impl MessageIntegrity { #[verifier::external_body] pub fn get_type() -> (r: AttributeType) ensures r.0 == 0x0008 { unimplemented!() } }
+impl MessageIntegritySha256 { #[verifier::external_body] pub fn get_type() -> (r: AttributeType) ensures r.0 == 0x001C { unimplemented!() } }
+impl Fingerprint { #[verifier::external_body] pub fn get_type() -> (r: AttributeType) ensures r.0 == 0x8028 { unimplemented!() } }
+pub open spec fn filter_flags(f: AttributeFilter) -> AdmFlags {
+    AdmFlags { mi: f.message_integrity, sha: f.message_integrity_sha256, fp: f.fingerprint }
+}
+//@item stun_rs :: mod context > fn ignore_attribute
+//@tags C09 C18 C10
+//@spec
+    ensures r == !adm_step(filter_flags(*old(f)), attr_type.0).0,
+        filter_flags(*final(f)) == adm_step(filter_flags(*old(f)), attr_type.0).1,
+//@end
 proof fn vx_sentinel() ensures false {}
 } // verus!
 fn main() {}
